@@ -69,7 +69,7 @@ IntKinds == {"bool", "char", "uchar", "short", "ushort", "int", "long", "ptr"}
 FltKinds == {"float", "double"}
 IsAgg(T) == T.k \in {"struct", "union"}
 
-ScalarSize(k) == CASE k \in {"bool", "char", "uchar"} -> 1 [] k \in {"short", "ushort"} -> 2
+ScalarSize(k) == CASE k \in {"bool", "char", "uchar", "void"} -> 1 [] k \in {"short", "ushort"} -> 2
                    [] k \in {"int", "float"} -> 4 [] k \in {"long", "ptr", "double"} -> 8
                    [] k = "ldouble" -> 16
 Up(x, a) == ((x + a - 1) \div a) * a
@@ -123,51 +123,6 @@ Classify(T) ==
 Cnt(cs, c) == Cardinality({j \in DOMAIN cs : cs[j] = c})
 InMem(cs) == cs[1] \in {"MEMORY", "X87"}                  \* X87 class arguments are passed in memory
 
-(* Level A: the allocator.  a = [gp, sse, stk]; location = [mem, regs, off] *)
-R(r, i) == [r |-> r, i |-> i]
-RegSeq(cs, gp, sse) == [j \in DOMAIN cs |->
-   IF cs[j] = "INTEGER" THEN R("gp", gp + Cnt(SubSeq(cs, 1, j - 1), "INTEGER"))
-   ELSE R("sse", sse + Cnt(SubSeq(cs, 1, j - 1), "SSE"))]
-APass(T, a) ==
-  LET cs == Classify(T) IN
-  IF ~InMem(cs) /\ a.gp + Cnt(cs, "INTEGER") <= GP_MAX /\ a.sse + Cnt(cs, "SSE") <= FP_MAX
-  THEN [loc |-> [mem |-> FALSE, regs |-> RegSeq(cs, a.gp, a.sse), off |-> 0],
-        a   |-> [a EXCEPT !.gp = @ + Cnt(cs, "INTEGER"), !.sse = @ + Cnt(cs, "SSE")]]
-  ELSE LET o == Up(a.stk, Max2(8, AlignOf(T))) IN
-       [loc |-> [mem |-> TRUE, regs |-> <<>>, off |-> o],
-        a   |-> [a EXCEPT !.stk = o + Up(SizeOf(T), 8)]]
-
-(* Level A: return.  Sequence of places, <<"mem">> = hidden pointer in rdi, returned in rax *)
-ARet(T) ==
-  IF T.k = "void" THEN <<>>
-  ELSE LET cs == Classify(T) IN
-       IF cs[1] = "MEMORY" THEN <<"mem">>
-       ELSE IF cs[1] = "X87" THEN <<"st0">>
-       ELSE [j \in DOMAIN cs |-> IF cs[j] = "INTEGER"
-                                  THEN (IF Cnt(SubSeq(cs, 1, j - 1), "INTEGER") = 0 THEN "rax" ELSE "rdx")
-                                  ELSE (IF Cnt(SubSeq(cs, 1, j - 1), "SSE") = 0 THEN "xmm0" ELSE "xmm1")]
-ARetMem(T) == T.k # "void" /\ ARet(T) = <<"mem">>
-(* the caller may assume nothing about bits of rax above the returned type *)
-ANarrow(T) == CASE T.k = "bool" -> "zx8" [] T.k = "char" -> "sx8" [] T.k = "uchar" -> "zx8"
-                [] T.k = "short" -> "sx16" [] T.k = "ushort" -> "zx16" [] OTHER -> "none"
-
-(* Level A: va_list (3.5.7).  v = [gp, fp, ovf]; register save area: gp i at 8i, xmm i at 48+16i;
-   ovf is relative to the start of the memory-argument area *)
-VaInitA(a) == [gp |-> 8 * a.gp, fp |-> 48 + 16 * a.sse, ovf |-> a.stk]
-SaveRegA(off) == IF off < 48 THEN R("gp", off \div 8) ELSE R("sse", (off - 48) \div 16)
-WalkA(T, v) ==
-  LET cs == Classify(T)
-      ni == Cnt(cs, "INTEGER")
-      ns == Cnt(cs, "SSE") IN
-  IF ~InMem(cs) /\ v.gp + 8 * ni <= 48 /\ v.fp + 16 * ns <= 176
-  THEN [src |-> [mem |-> FALSE, off |-> 0,
-                 slots |-> [j \in DOMAIN cs |-> IF cs[j] = "INTEGER" THEN v.gp + 8 * Cnt(SubSeq(cs, 1, j - 1), "INTEGER")
-                                                 ELSE v.fp + 16 * Cnt(SubSeq(cs, 1, j - 1), "SSE")]],
-        v |-> [v EXCEPT !.gp = @ + 8 * ni, !.fp = @ + 16 * ns]]
-  ELSE LET p == IF AlignOf(T) > 8 THEN Up(v.ovf, 16) ELSE v.ovf IN
-       [src |-> [mem |-> TRUE, off |-> p, slots |-> <<>>], v |-> [v EXCEPT !.ovf = Up(p + SizeOf(T), 8)]]
-
------------------------------------------------------------------------------
 (* Level I: codegen.c has_flonum(ty, lo, hi, offset), literally *)
 RECURSIVE HasFlonum(_, _, _, _)
 HasFlonum(T, lo, hi, off) ==
@@ -175,136 +130,7 @@ HasFlonum(T, lo, hi, off) ==
   ELSE IF T.k = "array" THEN \A i \in 0..(T.n - 1) : HasFlonum(T.m[1], lo, hi, off + SizeOf(T.m[1]) * i)
   ELSE off < lo \/ hi <= off \/ T.k \in FltKinds
 HasLd(T) == \E i \in DOMAIN Leaves(T, 0) : Leaves(T, 0)[i].k = "ldouble"
-B(b) == IF b THEN 1 ELSE 0
 
-(* register demand of a <= 16-byte aggregate as the three copies of the test compute it *)
-AggNeed(T, fp2) ==
-  LET fp1 == HasFlonum(T, 0, 8, 0)
-      two == IF FixPhantom THEN SizeOf(T) > 8 ELSE TRUE IN
-  [fp |-> B(fp1) + B(two /\ fp2), gp |-> B(~fp1) + B(two /\ ~fp2)]
-AggFits(c, need) == IF FixLE THEN c.fp + need.fp <= FP_MAX /\ c.gp + need.gp <= GP_MAX
-                    ELSE c.fp + need.fp < FP_MAX /\ c.gp + need.gp < GP_MAX
-AggInRegsI(T) == SizeOf(T) <= 16 /\ (FixX87 => ~HasLd(T))
-
-(* push_args: c = [gp, fp, stack] -> pass_by_stack?, memory offset of the argument, c' *)
-CallerDecide(T, c) ==
-  IF IsAgg(T) THEN
-    IF ~AggInRegsI(T) THEN
-      LET s0 == IF FixAlign16 /\ AlignOf(T) = 16 THEN Up(c.stack, 2) ELSE c.stack IN
-      [mem |-> TRUE, off |-> 8 * s0, c |-> [c EXCEPT !.stack = s0 + Up(SizeOf(T), 8) \div 8]]
-    ELSE LET need == AggNeed(T, HasFlonum(T, 8, 16, 0)) IN
-         IF AggFits(c, need) THEN [mem |-> FALSE, off |-> 0, c |-> [c EXCEPT !.fp = @ + need.fp, !.gp = @ + need.gp]]
-         ELSE [mem |-> TRUE, off |-> 8 * c.stack, c |-> [c EXCEPT !.stack = @ + Up(SizeOf(T), 8) \div 8]]
-  ELSE IF T.k \in FltKinds THEN
-    IF c.fp >= FP_MAX THEN [mem |-> TRUE, off |-> 8 * c.stack, c |-> [c EXCEPT !.fp = @ + 1, !.stack = @ + 1]]
-    ELSE [mem |-> FALSE, off |-> 0, c |-> [c EXCEPT !.fp = @ + 1]]
-  ELSE IF T.k = "ldouble" THEN
-    LET s0 == IF FixAlign16 THEN Up(c.stack, 2) ELSE c.stack IN
-    [mem |-> TRUE, off |-> 8 * s0, c |-> [c EXCEPT !.stack = s0 + 2]]
-  ELSE IF c.gp >= GP_MAX THEN [mem |-> TRUE, off |-> 8 * c.stack, c |-> [c EXCEPT !.gp = @ + 1, !.stack = @ + 1]]
-  ELSE [mem |-> FALSE, off |-> 0, c |-> [c EXCEPT !.gp = @ + 1]]
-
-(* registers an aggregate is moved through, given running counters (pop loop and spill loop share the shape) *)
-AggRegs(T, p) ==
-  LET fp1 == HasFlonum(T, 0, 8, 0)
-      fp2 == HasFlonum(T, 8, 16, 0)
-      r1  == IF fp1 THEN R("sse", p.fp) ELSE R("gp", p.gp)
-      p1  == IF fp1 THEN [p EXCEPT !.fp = @ + 1] ELSE [p EXCEPT !.gp = @ + 1]
-  IN IF SizeOf(T) > 8 THEN <<r1, IF fp2 THEN R("sse", p1.fp) ELSE R("gp", p1.gp)>> ELSE <<r1>>
-Bump(p, regs) == [p EXCEPT !.gp = @ + Cardinality({j \in DOMAIN regs : regs[j].r = "gp"}),
-                           !.fp = @ + Cardinality({j \in DOMAIN regs : regs[j].r = "sse"})]
-
-(* ND_FUNCALL pop loop: p = [gp, fp] *)
-PopRegs(T, p) ==
-  IF IsAgg(T) THEN (IF AggInRegsI(T) /\ AggFits(p, AggNeed(T, HasFlonum(T, 8, 16, 0))) THEN AggRegs(T, p) ELSE <<>>)
-  ELSE IF T.k \in FltKinds THEN (IF p.fp < FP_MAX THEN <<R("sse", p.fp)>> ELSE <<>>)
-  ELSE IF T.k = "ldouble" THEN <<>>
-  ELSE IF p.gp < GP_MAX THEN <<R("gp", p.gp)>> ELSE <<>>
-
-(* assign_lvar_offsets: c = [gp, fp, top] -> home on the stack (offset from the argument area = rbp+16)? *)
-CalleeOff(T, c) ==
-  LET onstk == LET t0 == IF FixAlign16 THEN Up(c.top, Max2(8, AlignOf(T))) ELSE Up(c.top, 8) IN
-               [mem |-> TRUE, off |-> t0 - 16, c |-> [c EXCEPT !.top = t0 + SizeOf(T)]] IN
-  IF IsAgg(T) THEN
-    IF AggInRegsI(T) THEN
-      LET need == AggNeed(T, HasFlonum(T, 8, 16, IF FixOffset THEN 0 ELSE 8)) IN
-      IF AggFits(c, need) THEN [mem |-> FALSE, off |-> 0, c |-> [c EXCEPT !.fp = @ + need.fp, !.gp = @ + need.gp]]
-      ELSE onstk
-    ELSE onstk
-  ELSE IF T.k \in FltKinds THEN
-    (IF c.fp < FP_MAX THEN [mem |-> FALSE, off |-> 0, c |-> [c EXCEPT !.fp = @ + 1]]
-     ELSE [onstk EXCEPT !.c.fp = @ + 1])
-  ELSE IF T.k = "ldouble" THEN onstk
-  ELSE IF c.gp < GP_MAX THEN [mem |-> FALSE, off |-> 0, c |-> [c EXCEPT !.gp = @ + 1]]
-  ELSE [onstk EXCEPT !.c.gp = @ + 1]
-
-(* emit_text spill loop: s = [gp, fp]; only for parameters whose home is not on the stack *)
-SpillRegs(T, s) ==
-  IF IsAgg(T) THEN AggRegs(T, s)
-  ELSE IF T.k \in FltKinds THEN <<R("sse", s.fp)>>
-  ELSE <<R("gp", s.gp)>>             \* long double never gets here (its home is on the stack)
-
-(* emit_text, `if (fn->va_area)`: va_elem initialisation.  w = [gp, fp] counts by is_flonum over the
-   parameters; the repaired variant takes the spill loop's counters and the end of the named stack homes *)
-IsFlonumI(T) == T.k \in {"float", "double", "ldouble"}
-VaCount(T, w) == IF IsFlonumI(T) THEN [w EXCEPT !.fp = @ + 1] ELSE [w EXCEPT !.gp = @ + 1]
-FpStride == IF FixVaStride THEN 16 ELSE 8
-VaInitI(w, s, c) == IF FixVaArea THEN [gp |-> 8 * s.gp, fp |-> 48 + FpStride * s.fp, ovf |-> c.top - 16]
-                    ELSE [gp |-> 8 * w.gp, fp |-> 48 + FpStride * w.fp, ovf |-> 0]
-SaveRegI(off) == IF off < 48 THEN R("gp", off \div 8) ELSE R("sse", (off - 48) \div FpStride)
-
-(* include/stdarg.h: va_arg = __builtin_reg_class + __va_arg_gp / __va_arg_fp / __va_arg_mem *)
-RegClassI(T) == IF T.k \in IntKinds THEN 0 ELSE IF IsFlonumI(T) THEN 1 ELSE 2
-WalkI(T, v) ==
-  IF FixVaArg /\ (IsAgg(T) \/ T.k = "ldouble") THEN      \* repaired: psABI walker on chibicc's save-area layout
-    LET cs == Classify(T)
-        ni == Cnt(cs, "INTEGER")
-        ns == Cnt(cs, "SSE") IN
-    IF ~InMem(cs) /\ v.gp + 8 * ni <= 48 /\ v.fp + FpStride * ns <= 48 + FpStride * 8
-    THEN [src |-> [mem |-> FALSE, off |-> 0,
-                   slots |-> [j \in DOMAIN cs |-> IF cs[j] = "INTEGER" THEN v.gp + 8 * Cnt(SubSeq(cs, 1, j - 1), "INTEGER")
-                                                   ELSE v.fp + FpStride * Cnt(SubSeq(cs, 1, j - 1), "SSE")]],
-          v |-> [v EXCEPT !.gp = @ + 8 * ni, !.fp = @ + FpStride * ns]]
-    ELSE LET p == IF AlignOf(T) > 8 THEN Up(v.ovf, 16) ELSE v.ovf IN
-         [src |-> [mem |-> TRUE, off |-> p, slots |-> <<>>], v |-> [v EXCEPT !.ovf = Up(p + SizeOf(T), 8)]]
-  ELSE
-  LET mem == LET p == IF AlignOf(T) > 8 THEN Up(v.ovf, 16) ELSE v.ovf IN
-             [src |-> [mem |-> TRUE, off |-> p, slots |-> <<>>], v |-> [v EXCEPT !.ovf = Up(p + SizeOf(T), 8)]]
-      k == RegClassI(T) IN
-  IF k = 0 THEN (IF v.gp >= 48 THEN mem
-                 ELSE [src |-> [mem |-> FALSE, off |-> 0, slots |-> <<v.gp>>], v |-> [v EXCEPT !.gp = @ + 8]])
-  ELSE IF k = 1 THEN (IF v.fp >= 48 + FpStride * 8 THEN mem
-                      ELSE [src |-> [mem |-> FALSE, off |-> 0, slots |-> <<v.fp>>], v |-> [v EXCEPT !.fp = @ + FpStride]])
-  ELSE mem
-
-(* returns.  Callee: ND_RETURN + copy_struct_reg / copy_struct_mem; caller: copy_ret_buffer *)
-RetAggRegsI(T) ==
-  LET fp1 == HasFlonum(T, 0, 8, 0)
-      fp2 == HasFlonum(T, 8, 16, 0)
-      r1  == IF fp1 THEN "xmm0" ELSE "rax"
-      r2  == IF fp2 THEN (IF fp1 THEN "xmm1" ELSE "xmm0") ELSE (IF fp1 THEN "rax" ELSE "rdx")
-  IN IF SizeOf(T) > 8 THEN <<r1, r2>> ELSE <<r1>>
-RetI(T) ==
-  IF T.k = "void" THEN <<>>
-  ELSE IF IsAgg(T) THEN (IF FixX87 /\ HasLd(T) /\ SizeOf(T) <= 16 THEN <<"st0">>
-                         ELSE IF SizeOf(T) <= 16 THEN RetAggRegsI(T) ELSE <<"mem">>)
-  ELSE IF T.k \in FltKinds THEN <<"xmm0">>
-  ELSE IF T.k = "ldouble" THEN <<"st0">>
-  ELSE <<"rax">>
-RetCalleeI(T) == RetI(T)       \* copy_struct_reg and copy_ret_buffer repeat the same two tests
-RetCallerI(T) == RetI(T)
-(* copy_struct_mem leaves the address of the callee's own object in rax *)
-RetRaxI(T) == IF IsAgg(T) /\ SizeOf(T) > 16 THEN (IF FixRetRax THEN "hidden" ELSE "local") ELSE "n/a"
-NarrowI(T) == CASE T.k = "bool" -> "zx8" [] T.k = "char" -> "sx8" [] T.k = "uchar" -> "zx8"
-                [] T.k = "short" -> "sx16" [] T.k = "ushort" -> "zx16" [] OTHER -> "none"
-(* bytes copy_ret_buffer writes for eightbyte j of a register-returned aggregate (must not exceed the object) *)
-RetStoreBytesI(T, j) ==
-  LET sz == SizeOf(T) IN
-  IF j = 1 THEN (IF HasFlonum(T, 0, 8, 0) THEN (IF sz = 4 THEN 4 ELSE 8) ELSE Min2(8, sz))
-  ELSE (IF HasFlonum(T, 8, 16, 0) THEN (IF sz = 12 THEN 4 ELSE 8) ELSE Min2(16, sz) - 8)
-HiddenI(T) == IsAgg(T) /\ SizeOf(T) > 16
-
------------------------------------------------------------------------------
 (* The kind alphabet *)
 KindSeq == <<
   [n |-> "i",    t |-> Sc("int")],
@@ -347,14 +173,207 @@ KindSeq == <<
 >>
 RetOnly == {"v", "b", "c", "uc", "s", "us"}
 AllNames == {KindSeq[i].n : i \in DOMAIN KindSeq}
-TY(nm) == KindSeq[CHOOSE i \in DOMAIN KindSeq : KindSeq[i].n = nm].t
+ST(nm) == KindSeq[CHOOSE i \in DOMAIN KindSeq : KindSeq[i].n = nm].t
+Feature(T) == IF IsAgg(T) /\ HasLd(T) THEN "x87agg"
+              ELSE IF T.k = "ldouble" THEN "ldouble"
+              ELSE IF IsAgg(T) THEN (IF SizeOf(T) <= 8 THEN "agg<=8" ELSE IF SizeOf(T) <= 16 THEN "agg<=16" ELSE "agg>16")
+              ELSE IF T.k \in FltKinds THEN "sse" ELSE "int"
+
+(* Everything the deciders ask about a type, computed once per kind from its structure (Init stores the
+   table in the variable `ki`, so TLC evaluates the structural operators once, not at every transition): layout, psABI classes, and the three has_flonum calls chibicc makes —
+   fp1 = has_flonum(ty, 0, 8, 0), fp2 = has_flonum(ty, 8, 16, 0), fp2c = has_flonum(ty, 8, 16, 8) *)
+KInfo == [nm \in AllNames |-> LET T == ST(nm) IN
+           [k |-> T.k, agg |-> IsAgg(T), size |-> IF T.k = "void" THEN 0 ELSE SizeOf(T), align |-> IF T.k = "void" THEN 1 ELSE AlignOf(T),
+            cs |-> IF T.k = "void" THEN <<"NO">> ELSE Classify(T),
+            fp1 |-> HasFlonum(T, 0, 8, 0), fp2 |-> HasFlonum(T, 8, 16, 0), fp2c |-> HasFlonum(T, 8, 16, 8),
+            hasld |-> HasLd(T), feat |-> Feature(T)]]
 ParamKinds == IF ParamSel = {} THEN AllNames \ RetOnly ELSE ParamSel
 RetKinds == IF RetSel = {} THEN AllNames ELSE RetSel
 (* a variadic argument has undergone the default promotions *)
 TailKinds == ParamKinds \ {"f"}
 
 -----------------------------------------------------------------------------
+-----------------------------------------------------------------------------
+(* Level A: the allocator.  a = [gp, sse, stk]; location = [mem, regs, off] *)
+R(r, i) == [r |-> r, i |-> i]
+RegSeq(cs, gp, sse) == [j \in DOMAIN cs |->
+   IF cs[j] = "INTEGER" THEN R("gp", gp + Cnt(SubSeq(cs, 1, j - 1), "INTEGER"))
+   ELSE R("sse", sse + Cnt(SubSeq(cs, 1, j - 1), "SSE"))]
+APass(T, a) ==
+  LET cs == T.cs IN
+  IF ~InMem(cs) /\ a.gp + Cnt(cs, "INTEGER") <= GP_MAX /\ a.sse + Cnt(cs, "SSE") <= FP_MAX
+  THEN [loc |-> [mem |-> FALSE, regs |-> RegSeq(cs, a.gp, a.sse), off |-> 0],
+        a   |-> [a EXCEPT !.gp = @ + Cnt(cs, "INTEGER"), !.sse = @ + Cnt(cs, "SSE")]]
+  ELSE LET o == Up(a.stk, Max2(8, T.align)) IN
+       [loc |-> [mem |-> TRUE, regs |-> <<>>, off |-> o],
+        a   |-> [a EXCEPT !.stk = o + Up(T.size, 8)]]
+
+(* Level A: return.  Sequence of places, <<"mem">> = hidden pointer in rdi, returned in rax *)
+ARet(T) ==
+  IF T.k = "void" THEN <<>>
+  ELSE LET cs == T.cs IN
+       IF cs[1] = "MEMORY" THEN <<"mem">>
+       ELSE IF cs[1] = "X87" THEN <<"st0">>
+       ELSE [j \in DOMAIN cs |-> IF cs[j] = "INTEGER"
+                                  THEN (IF Cnt(SubSeq(cs, 1, j - 1), "INTEGER") = 0 THEN "rax" ELSE "rdx")
+                                  ELSE (IF Cnt(SubSeq(cs, 1, j - 1), "SSE") = 0 THEN "xmm0" ELSE "xmm1")]
+ARetMem(T) == T.k # "void" /\ ARet(T) = <<"mem">>
+(* the caller may assume nothing about bits of rax above the returned type *)
+ANarrow(T) == CASE T.k = "bool" -> "zx8" [] T.k = "char" -> "sx8" [] T.k = "uchar" -> "zx8"
+                [] T.k = "short" -> "sx16" [] T.k = "ushort" -> "zx16" [] OTHER -> "none"
+
+(* Level A: va_list (3.5.7).  v = [gp, fp, ovf]; register save area: gp i at 8i, xmm i at 48+16i;
+   ovf is relative to the start of the memory-argument area *)
+VaInitA(a) == [gp |-> 8 * a.gp, fp |-> 48 + 16 * a.sse, ovf |-> a.stk, okc |-> TRUE, oko |-> TRUE]
+SaveRegA(off) == IF off < 48 THEN R("gp", off \div 8) ELSE R("sse", (off - 48) \div 16)
+WalkA(T, v) ==
+  LET cs == T.cs
+      ni == Cnt(cs, "INTEGER")
+      ns == Cnt(cs, "SSE") IN
+  IF ~InMem(cs) /\ v.gp + 8 * ni <= 48 /\ v.fp + 16 * ns <= 176
+  THEN [src |-> [mem |-> FALSE, off |-> 0,
+                 slots |-> [j \in DOMAIN cs |-> IF cs[j] = "INTEGER" THEN v.gp + 8 * Cnt(SubSeq(cs, 1, j - 1), "INTEGER")
+                                                 ELSE v.fp + 16 * Cnt(SubSeq(cs, 1, j - 1), "SSE")]],
+        v |-> [v EXCEPT !.gp = @ + 8 * ni, !.fp = @ + 16 * ns]]
+  ELSE LET p == IF T.align > 8 THEN Up(v.ovf, 16) ELSE v.ovf IN
+       [src |-> [mem |-> TRUE, off |-> p, slots |-> <<>>], v |-> [v EXCEPT !.ovf = Up(p + T.size, 8)]]
+
+-----------------------------------------------------------------------------
+B(b) == IF b THEN 1 ELSE 0
+
+(* register demand of a <= 16-byte aggregate as the three copies of the test compute it *)
+AggNeed(T, fp2) ==
+  LET fp1 == T.fp1
+      two == IF FixPhantom THEN T.size > 8 ELSE TRUE IN
+  [fp |-> B(fp1) + B(two /\ fp2), gp |-> B(~fp1) + B(two /\ ~fp2)]
+AggFits(c, need) == IF FixLE THEN c.fp + need.fp <= FP_MAX /\ c.gp + need.gp <= GP_MAX
+                    ELSE c.fp + need.fp < FP_MAX /\ c.gp + need.gp < GP_MAX
+(* `if (gp++ >= GP_MAX)`: the pinned code keeps counting past the limit, which then poisons the
+   aggregate test `gp + n <= GP_MAX` even for n = 0; the repaired code stops at the limit *)
+Over == IF FixLE THEN 0 ELSE 1
+AggInRegsI(T) == T.size <= 16 /\ (FixX87 => ~T.hasld)
+
+(* push_args: c = [gp, fp, stack] -> pass_by_stack?, memory offset of the argument, c' *)
+CallerDecide(T, c) ==
+  IF T.agg THEN
+    IF ~AggInRegsI(T) THEN
+      LET s0 == IF FixAlign16 /\ T.align = 16 THEN Up(c.stack, 2) ELSE c.stack IN
+      [mem |-> TRUE, off |-> 8 * s0, c |-> [c EXCEPT !.stack = s0 + Up(T.size, 8) \div 8]]
+    ELSE LET need == AggNeed(T, T.fp2) IN
+         IF AggFits(c, need) THEN [mem |-> FALSE, off |-> 0, c |-> [c EXCEPT !.fp = @ + need.fp, !.gp = @ + need.gp]]
+         ELSE [mem |-> TRUE, off |-> 8 * c.stack, c |-> [c EXCEPT !.stack = @ + Up(T.size, 8) \div 8]]
+  ELSE IF T.k \in FltKinds THEN
+    IF c.fp >= FP_MAX THEN [mem |-> TRUE, off |-> 8 * c.stack, c |-> [c EXCEPT !.fp = @ + Over, !.stack = @ + 1]]
+    ELSE [mem |-> FALSE, off |-> 0, c |-> [c EXCEPT !.fp = @ + 1]]
+  ELSE IF T.k = "ldouble" THEN
+    LET s0 == IF FixAlign16 THEN Up(c.stack, 2) ELSE c.stack IN
+    [mem |-> TRUE, off |-> 8 * s0, c |-> [c EXCEPT !.stack = s0 + 2]]
+  ELSE IF c.gp >= GP_MAX THEN [mem |-> TRUE, off |-> 8 * c.stack, c |-> [c EXCEPT !.gp = @ + Over, !.stack = @ + 1]]
+  ELSE [mem |-> FALSE, off |-> 0, c |-> [c EXCEPT !.gp = @ + 1]]
+
+(* registers an aggregate is moved through, given running counters (pop loop and spill loop share the shape) *)
+AggRegs(T, p) ==
+  LET fp1 == T.fp1
+      fp2 == T.fp2
+      r1  == IF fp1 THEN R("sse", p.fp) ELSE R("gp", p.gp)
+      p1  == IF fp1 THEN [p EXCEPT !.fp = @ + 1] ELSE [p EXCEPT !.gp = @ + 1]
+  IN IF T.size > 8 THEN <<r1, IF fp2 THEN R("sse", p1.fp) ELSE R("gp", p1.gp)>> ELSE <<r1>>
+Bump(p, regs) == [p EXCEPT !.gp = @ + Cardinality({j \in DOMAIN regs : regs[j].r = "gp"}),
+                           !.fp = @ + Cardinality({j \in DOMAIN regs : regs[j].r = "sse"})]
+
+(* ND_FUNCALL pop loop: p = [gp, fp] *)
+PopRegs(T, p) ==
+  IF T.agg THEN (IF AggInRegsI(T) /\ AggFits(p, AggNeed(T, T.fp2)) THEN AggRegs(T, p) ELSE <<>>)
+  ELSE IF T.k \in FltKinds THEN (IF p.fp < FP_MAX THEN <<R("sse", p.fp)>> ELSE <<>>)
+  ELSE IF T.k = "ldouble" THEN <<>>
+  ELSE IF p.gp < GP_MAX THEN <<R("gp", p.gp)>> ELSE <<>>
+
+(* assign_lvar_offsets: c = [gp, fp, top] -> home on the stack (offset from the argument area = rbp+16)? *)
+CalleeOff(T, c) ==
+  LET onstk == LET t0 == IF FixAlign16 THEN Up(c.top, Max2(8, T.align)) ELSE Up(c.top, 8) IN
+               [mem |-> TRUE, off |-> t0 - 16, c |-> [c EXCEPT !.top = t0 + T.size]] IN
+  IF T.agg THEN
+    IF AggInRegsI(T) THEN
+      LET need == AggNeed(T, IF FixOffset THEN T.fp2 ELSE T.fp2c) IN
+      IF AggFits(c, need) THEN [mem |-> FALSE, off |-> 0, c |-> [c EXCEPT !.fp = @ + need.fp, !.gp = @ + need.gp]]
+      ELSE onstk
+    ELSE onstk
+  ELSE IF T.k \in FltKinds THEN
+    (IF c.fp < FP_MAX THEN [mem |-> FALSE, off |-> 0, c |-> [c EXCEPT !.fp = @ + 1]]
+     ELSE [onstk EXCEPT !.c.fp = @ + Over])
+  ELSE IF T.k = "ldouble" THEN onstk
+  ELSE IF c.gp < GP_MAX THEN [mem |-> FALSE, off |-> 0, c |-> [c EXCEPT !.gp = @ + 1]]
+  ELSE [onstk EXCEPT !.c.gp = @ + Over]
+
+(* emit_text spill loop: s = [gp, fp]; only for parameters whose home is not on the stack *)
+SpillRegs(T, s) ==
+  IF T.agg THEN AggRegs(T, s)
+  ELSE IF T.k \in FltKinds THEN <<R("sse", s.fp)>>
+  ELSE <<R("gp", s.gp)>>             \* long double never gets here (its home is on the stack)
+
+(* emit_text, `if (fn->va_area)`: va_elem initialisation.  w = [gp, fp] counts by is_flonum over the
+   parameters; the repaired variant takes the spill loop's counters and the end of the named stack homes *)
+IsFlonumI(T) == T.k \in {"float", "double", "ldouble"}
+VaCount(T, w) == IF IsFlonumI(T) THEN [w EXCEPT !.fp = @ + 1] ELSE [w EXCEPT !.gp = @ + 1]
+FpStride == IF FixVaStride THEN 16 ELSE 8
+VaInitI(w, s, c) == IF FixVaArea THEN [gp |-> 8 * s.gp, fp |-> 48 + FpStride * s.fp, ovf |-> c.top - 16, okc |-> TRUE, oko |-> TRUE]
+                    ELSE [gp |-> 8 * Min2(w.gp, GP_MAX), fp |-> 48 + FpStride * Min2(w.fp, FP_MAX), ovf |-> 0, okc |-> TRUE, oko |-> TRUE]
+SaveRegI(off) == IF off < 48 THEN R("gp", off \div 8) ELSE R("sse", (off - 48) \div FpStride)
+
+(* include/stdarg.h: va_arg = __builtin_reg_class + __va_arg_gp / __va_arg_fp / __va_arg_mem *)
+RegClassI(T) == IF T.k \in IntKinds THEN 0 ELSE IF IsFlonumI(T) THEN 1 ELSE 2
+WalkI(T, v) ==
+  IF FixVaArg /\ (T.agg \/ T.k = "ldouble") THEN      \* repaired: psABI walker on chibicc's save-area layout
+    LET cs == T.cs
+        ni == Cnt(cs, "INTEGER")
+        ns == Cnt(cs, "SSE") IN
+    IF ~InMem(cs) /\ v.gp + 8 * ni <= 48 /\ v.fp + FpStride * ns <= 48 + FpStride * 8
+    THEN [src |-> [mem |-> FALSE, off |-> 0,
+                   slots |-> [j \in DOMAIN cs |-> IF cs[j] = "INTEGER" THEN v.gp + 8 * Cnt(SubSeq(cs, 1, j - 1), "INTEGER")
+                                                   ELSE v.fp + FpStride * Cnt(SubSeq(cs, 1, j - 1), "SSE")]],
+          v |-> [v EXCEPT !.gp = @ + 8 * ni, !.fp = @ + FpStride * ns]]
+    ELSE LET p == IF T.align > 8 THEN Up(v.ovf, 16) ELSE v.ovf IN
+         [src |-> [mem |-> TRUE, off |-> p, slots |-> <<>>], v |-> [v EXCEPT !.ovf = Up(p + T.size, 8)]]
+  ELSE
+  LET mem == LET p == IF T.align > 8 THEN Up(v.ovf, 16) ELSE v.ovf IN
+             [src |-> [mem |-> TRUE, off |-> p, slots |-> <<>>], v |-> [v EXCEPT !.ovf = Up(p + T.size, 8)]]
+      k == RegClassI(T) IN
+  IF k = 0 THEN (IF v.gp >= 48 THEN mem
+                 ELSE [src |-> [mem |-> FALSE, off |-> 0, slots |-> <<v.gp>>], v |-> [v EXCEPT !.gp = @ + 8]])
+  ELSE IF k = 1 THEN (IF v.fp >= 48 + FpStride * 8 THEN mem
+                      ELSE [src |-> [mem |-> FALSE, off |-> 0, slots |-> <<v.fp>>], v |-> [v EXCEPT !.fp = @ + FpStride]])
+  ELSE mem
+
+(* returns.  Callee: ND_RETURN + copy_struct_reg / copy_struct_mem; caller: copy_ret_buffer *)
+RetAggRegsI(T) ==
+  LET fp1 == T.fp1
+      fp2 == T.fp2
+      r1  == IF fp1 THEN "xmm0" ELSE "rax"
+      r2  == IF fp2 THEN (IF fp1 THEN "xmm1" ELSE "xmm0") ELSE (IF fp1 THEN "rax" ELSE "rdx")
+  IN IF T.size > 8 THEN <<r1, r2>> ELSE <<r1>>
+RetI(T) ==
+  IF T.k = "void" THEN <<>>
+  ELSE IF T.agg THEN (IF FixX87 /\ T.hasld /\ T.size <= 16 THEN <<"st0">>
+                         ELSE IF T.size <= 16 THEN RetAggRegsI(T) ELSE <<"mem">>)
+  ELSE IF T.k \in FltKinds THEN <<"xmm0">>
+  ELSE IF T.k = "ldouble" THEN <<"st0">>
+  ELSE <<"rax">>
+RetCalleeI(T) == RetI(T)       \* copy_struct_reg and copy_ret_buffer repeat the same two tests
+RetCallerI(T) == RetI(T)
+(* copy_struct_mem leaves the address of the callee's own object in rax *)
+RetRaxI(T) == IF T.agg /\ T.size > 16 THEN (IF FixRetRax THEN "hidden" ELSE "local") ELSE "n/a"
+NarrowI(T) == CASE T.k = "bool" -> "zx8" [] T.k = "char" -> "sx8" [] T.k = "uchar" -> "zx8"
+                [] T.k = "short" -> "sx16" [] T.k = "ushort" -> "zx16" [] OTHER -> "none"
+(* bytes copy_ret_buffer writes for eightbyte j of a register-returned aggregate (must not exceed the object) *)
+RetStoreBytesI(T, j) ==
+  LET sz == T.size IN
+  IF j = 1 THEN (IF T.fp1 THEN (IF sz = 4 THEN 4 ELSE 8) ELSE Min2(8, sz))
+  ELSE (IF T.fp2 THEN (IF sz = 12 THEN 4 ELSE 8) ELSE Min2(16, sz) - 8)
+HiddenI(T) == T.agg /\ T.size > 16
+
+-----------------------------------------------------------------------------
 VARIABLES
+  ki, ri,          \* the per-kind tables KInfo / RInfo (constant; held in the state so that they are computed once)
   ret, var,        \* return kind, variadic function?          (chosen in Init)
   phase,           \* "named" | "dots" | "called"
   args, nfix,      \* kind names passed so far; number of named parameters
@@ -366,26 +385,22 @@ VARIABLES
   dis,             \* disagreement classes of the last transition
   fdis,            \* ... of a foreign walker on chibicc's va_list (va_list passed to other code)
   last             \* the decisions of the last transition (for counterexamples)
-vars == <<ret, var, phase, args, nfix, locs, a, cl, pp, ce, sp, vw, va, vi, vf, dis, fdis, last>>
+TY(nm) == ki[nm]
+vars == <<ki, ri, ret, var, phase, args, nfix, locs, a, cl, pp, ce, sp, vw, va, vi, vf, dis, fdis, last>>
 (* the allocator graph: counters saturate where the code only compares them against GP_MAX / FP_MAX,
    byte counts matter modulo 16 *)
-NV(v) == <<v.gp, v.fp, Up(v.ovf, 8) % 16>>
+NV(v) == <<v.gp, v.fp, Up(v.ovf, 8) % 16, v.okc, v.oko>>
 GraphView == <<ret, var, phase, a.gp, a.sse, a.stk % 16,
                Min2(cl.gp, GP_MAX), Min2(cl.fp, FP_MAX), cl.stack % 2, pp,
-               Min2(ce.gp, GP_MAX), Min2(ce.fp, FP_MAX), Up(ce.top, 8) % 16, sp,
-               IF var /\ phase = "named" THEN <<Min2(vw.gp, GP_MAX), Min2(vw.fp, FP_MAX)>> ELSE <<>>,
+               IF phase = "named" THEN <<Min2(ce.gp, GP_MAX), Min2(ce.fp, FP_MAX), Up(ce.top, 8) % 16, sp>> ELSE <<>>,
+               IF var /\ phase = "named" THEN <<vw.gp = sp.gp, vw.fp = sp.fp>> ELSE <<>>,
                IF phase = "dots" THEN <<NV(va), NV(vi), NV(vf)>> ELSE <<>>, dis, fdis>>
 SigView == <<ret, var, phase, args, nfix, dis, fdis>>
 
-Feature(T) == IF IsAgg(T) /\ HasLd(T) THEN "x87agg"
-              ELSE IF T.k = "ldouble" THEN "ldouble"
-              ELSE IF IsAgg(T) THEN (IF SizeOf(T) <= 8 THEN "agg<=8" ELSE IF SizeOf(T) <= 16 THEN "agg<=16" ELSE "agg>16")
-              ELSE IF T.k \in FltKinds THEN "sse" ELSE "int"
-
 (* disagreements of a named-parameter transition *)
 ParamDis(T, A, C, P, E, S) ==
-  LET f == Feature(T)
-      cls(x) == IF A.mem /\ AlignOf(T) = 16 /\ f # "x87agg" THEN x \o ":align16" ELSE x \o ":" \o f IN
+  LET f == T.feat
+      cls(x) == IF A.mem /\ T.align = 16 /\ f # "x87agg" THEN x \o ":align16" ELSE x \o ":" \o f IN
      (IF C.mem # (P = <<>>) THEN {cls("caller-push-vs-pop")} ELSE {})
   \cup (IF C.mem # E.mem \/ (C.mem /\ C.off # E.off) THEN {cls("caller-vs-callee-homes")} ELSE {})
   \cup (IF ~E.mem /\ ~C.mem /\ P # S THEN {cls("caller-vs-callee-spill")} ELSE {})
@@ -393,23 +408,38 @@ ParamDis(T, A, C, P, E, S) ==
   \cup (IF A.mem # E.mem \/ (A.mem /\ A.off # E.off) \/ (~A.mem /\ ~E.mem /\ A.regs # S) THEN {cls("callee-vs-psabi")} ELSE {})
 (* caller side of a variadic argument (no parameter on the other side) *)
 CallerDis(T, A, C, P) ==
-  LET f == Feature(T)
-      cls(x) == IF A.mem /\ AlignOf(T) = 16 /\ f # "x87agg" THEN x \o ":align16" ELSE x \o ":" \o f IN
+  LET f == T.feat
+      cls(x) == IF A.mem /\ T.align = 16 /\ f # "x87agg" THEN x \o ":align16" ELSE x \o ":" \o f IN
      (IF C.mem # (P = <<>>) THEN {cls("caller-push-vs-pop")} ELSE {})
   \cup (IF A.mem # C.mem \/ (A.mem /\ A.off # C.off) \/ (~A.mem /\ ~C.mem /\ A.regs # P) THEN {cls("caller-vs-psabi")} ELSE {})
 (* where a walker's source really comes from, as a Level A location *)
 SrcLoc(src, saveReg(_)) == IF src.mem THEN [mem |-> TRUE, regs |-> <<>>, off |-> src.off]
                            ELSE [mem |-> FALSE, regs |-> [j \in DOMAIN src.slots |-> saveReg(src.slots[j])], off |-> 0]
-WalkDis(T, A, W, first, initOK, tag) ==
-  LET f == Feature(T) IN
+WalkDis(T, A, W, v0, tag) ==
+  LET f == T.feat IN
   IF SrcLoc(W.src, SaveRegI) = A THEN {}
-  ELSE IF first /\ ~initOK.cnt THEN {tag \o ":named-agg-or-ldouble"}
-  ELSE IF first /\ ~initOK.ovf THEN {tag \o ":named-on-stack"}
+  ELSE IF ~v0.okc THEN {tag \o ":named-agg-or-ldouble"}     \* va_start had the wrong register counts
+  ELSE IF ~v0.oko /\ W.src.mem THEN {tag \o ":named-on-stack"}  \* va_start did not skip the named stack parameters
   ELSE {tag \o ":" \o f}
 
+RetLocRec(T) == [a |-> ARet(T), callee |-> RetCalleeI(T), caller |-> RetCallerI(T), rax |-> RetRaxI(T),
+                 narrow |-> ANarrow(T)]
+RetDis(T) ==
+     (IF ARet(T) # RetCalleeI(T) THEN {"ret-callee-vs-psabi:" \o T.feat} ELSE {})
+  \cup (IF ARet(T) # RetCallerI(T) THEN {"ret-caller-vs-psabi:" \o T.feat} ELSE {})
+  \cup (IF ARetMem(T) # HiddenI(T) THEN {"ret-hidden-pointer:" \o T.feat} ELSE {})
+  \cup (IF ARetMem(T) /\ RetRaxI(T) # "hidden" THEN {"ret-rax-not-hidden-pointer"} ELSE {})
+  \cup (IF ANarrow(T) # NarrowI(T) THEN {"ret-narrow"} ELSE {})
+  \cup (IF T.agg /\ T.size <= 16 /\ ~T.hasld
+           /\ \E j \in 1..Len(RetAggRegsI(T)) : 8 * (j - 1) + RetStoreBytesI(T, j) > T.size
+        THEN {"ret-store-overrun"} ELSE {})
+
+RInfo == [nm \in AllNames |-> [rloc |-> ARet(KInfo[nm]), rdis |-> RetDis(KInfo[nm]), hidden |-> ARetMem(KInfo[nm])]]
+
 Z2 == [gp |-> 0, fp |-> 0]
-ZV == [gp |-> 0, fp |-> 0, ovf |-> 0]
+ZV == [gp |-> 0, fp |-> 0, ovf |-> 0, okc |-> TRUE, oko |-> TRUE]
 Init ==
+  /\ ki = KInfo /\ ri = RInfo
   /\ ret \in RetKinds /\ var \in BOOLEAN
   /\ phase = "named" /\ args = <<>> /\ nfix = 0 /\ locs = <<>>
   /\ a  = [gp |-> B(ARetMem(TY(ret))), sse |-> 0, stk |-> 0]
@@ -421,26 +451,14 @@ Init ==
   /\ va = ZV /\ vi = ZV /\ vf = ZV
   /\ dis = {} /\ fdis = {} /\ last = <<>>
 
-RetLocRec(T) == [a |-> ARet(T), callee |-> RetCalleeI(T), caller |-> RetCallerI(T), rax |-> RetRaxI(T),
-                 narrow |-> ANarrow(T)]
-RetDis(T) ==
-     (IF ARet(T) # RetCalleeI(T) THEN {"ret-callee-vs-psabi:" \o Feature(T)} ELSE {})
-  \cup (IF ARet(T) # RetCallerI(T) THEN {"ret-caller-vs-psabi:" \o Feature(T)} ELSE {})
-  \cup (IF ARetMem(T) # HiddenI(T) THEN {"ret-hidden-pointer:" \o Feature(T)} ELSE {})
-  \cup (IF ARetMem(T) /\ RetRaxI(T) # "hidden" THEN {"ret-rax-not-hidden-pointer"} ELSE {})
-  \cup (IF ANarrow(T) # NarrowI(T) THEN {"ret-narrow"} ELSE {})
-  \cup (IF IsAgg(T) /\ SizeOf(T) <= 16 /\ ~HasLd(T)
-           /\ \E j \in 1..Len(RetAggRegsI(T)) : 8 * (j - 1) + RetStoreBytesI(T, j) > SizeOf(T)
-        THEN {"ret-store-overrun"} ELSE {})
-
 EmitB(k, nf, A, a2, d2, fd2) ==
   IF Emit
   THEN CSVWrite("%1$s", <<ToJson([ret |-> ret, var |-> var, nfix |-> nf,
                                    args |-> Append(args, k), locs |-> Append(locs, A),
                                    gp |-> a2.gp, sse |-> a2.sse, stk |-> a2.stk, al |-> a2.sse,
                                    from |-> [gp |-> a.gp, sse |-> a.sse, par |-> (a.stk \div 8) % 2],
-                                   dis |-> d2, fdis |-> fd2, rloc |-> ARet(TY(ret)), rdis |-> RetDis(TY(ret)),
-                                   hidden |-> ARetMem(TY(ret))])>>, IOEnv.OUT)
+                                   dis |-> d2, fdis |-> fd2, rloc |-> ri[ret].rloc, rdis |-> ri[ret].rdis,
+                                   hidden |-> ri[ret].hidden])>>, IOEnv.OUT)
   ELSE TRUE
 
 (* one more named parameter *)
@@ -458,7 +476,7 @@ PassNamed(k) ==
      /\ dis' = d /\ fdis' = {}
      /\ last' = [k |-> k, A |-> A.loc, caller |-> [mem |-> C.mem, off |-> C.off], pop |-> P,
                  callee |-> [mem |-> E.mem, off |-> E.off], spill |-> S]
-     /\ UNCHANGED <<ret, var, phase, va, vi, vf>>
+     /\ UNCHANGED <<ki, ri, ret, var, phase, va, vi, vf>>
      /\ EmitB(k, nfix + 1, A.loc, A.a, d, {})
 
 (* one more variadic argument; the first one also runs va_start *)
@@ -469,18 +487,21 @@ PassDots(k) ==
       C  == CallerDecide(T, cl)
       P  == PopRegs(T, pp)
       v0A == IF first THEN VaInitA(a) ELSE va
-      v0I == IF first THEN VaInitI(vw, sp, ce) ELSE vi
-      v0F == IF first THEN VaInitI(vw, sp, ce) ELSE vf
-      initOK == [cnt |-> v0I.gp = 8 * a.gp /\ (v0I.fp - 48) \div FpStride = a.sse, ovf |-> v0I.ovf = a.stk]
+      vst == LET v == VaInitI(vw, sp, ce) IN
+             [v EXCEPT !.okc = (v.gp = 8 * a.gp /\ (v.fp - 48) \div FpStride = a.sse), !.oko = (v.ovf = a.stk)]
+      v0I == IF first THEN vst ELSE vi
+      v0F == IF first THEN vst ELSE vf
       WA == WalkA(T, v0A)
       WI == WalkI(T, v0I)
       WF == WalkA(T, v0F)               \* psABI walker (e.g. glibc's vprintf) on the va_list chibicc built
       d  == CallerDis(T, A.loc, C, P)
             \cup (IF SrcLoc(WA.src, SaveRegA) # A.loc THEN {"spec-walker-vs-allocator"} ELSE {})
-            \cup WalkDis(T, A.loc, WI, first, initOK, "vaarg")
+            \cup (IF first /\ ~vst.okc THEN {"vastart:named-agg-or-ldouble"} ELSE {})   \* wrong gp_offset / fp_offset
+            \cup (IF first /\ ~vst.oko THEN {"vastart:named-on-stack"} ELSE {})         \* overflow_arg_area not past the named ones
+            \cup WalkDis(T, A.loc, WI, v0I, "vaarg")
       fd == IF SrcLoc(WF.src, SaveRegI) = A.loc THEN {}
-            ELSE IF ~(initOK.cnt /\ initOK.ovf) THEN {}            \* already reported through d
-            ELSE {"vaforward:" \o Feature(T)}
+            ELSE IF ~(v0F.okc /\ v0F.oko) THEN {}                  \* va_start already wrong: reported through d
+            ELSE {"vaforward:" \o T.feat}
   IN /\ var /\ phase \in {"named", "dots"} /\ dis = {} /\ fdis = {} /\ Len(args) >= 1 /\ Len(args) < MaxLen
      /\ k \in TailKinds
      /\ phase' = "dots"
@@ -490,14 +511,14 @@ PassDots(k) ==
      /\ dis' = d /\ fdis' = fd
      /\ last' = [k |-> k, A |-> A.loc, caller |-> [mem |-> C.mem, off |-> C.off], pop |-> P,
                  walkA |-> WA.src, walkI |-> WI.src, walkF |-> WF.src, v0I |-> v0I, v0A |-> v0A]
-     /\ UNCHANGED <<ret, var, ce, sp, vw>>
+     /\ UNCHANGED <<ki, ri, ret, var, ce, sp, vw>>
      /\ EmitB(k, IF first THEN Len(args) ELSE nfix, A.loc, A.a, d, fd)
 
 -----------------------------------------------------------------------------
 (* The whole call on an explicit stack of labelled 8-byte slots (head = lowest address = top of stack):
    push_args (stack count, padding), push_args2 pass 1 (stack arguments, right to left) and pass 2
    (register arguments, right to left), the hidden-pointer push, the pop loop, `call`, `add rsp`. *)
-Slots(i, T) == [j \in 1..(Up(SizeOf(T), 8) \div 8) |-> <<i, j>>]
+Slots(i, T) == [j \in 1..(Up(T.size, 8) \div 8) |-> <<i, j>>]
 Rev(s) == [i \in 1..Len(s) |-> s[Len(s) + 1 - i]]
 CallSim(names, rt, d0) ==
   LET n    == Len(names)
@@ -537,8 +558,8 @@ AImage(names, ls, rt) ==
       regs == FoldLeft(LAMBDA acc, i : IF ls[i].mem THEN acc
                                        ELSE acc \o [j \in DOMAIN ls[i].regs |-> [r |-> ls[i].regs[j], v |-> <<i, j>>]],
                        IF ARetMem(rt) THEN <<[r |-> R("gp", 0), v |-> <<-1, 1>>]>> ELSE <<>>, [i \in 1..n |-> i])
-      memsz == FoldLeft(LAMBDA m, i : IF ls[i].mem THEN Max2(m, ls[i].off + Up(SizeOf(TY(names[i])), 8)) ELSE m, 0, [i \in 1..n |-> i])
-      slot(s) == LET hit == {i \in 1..n : ls[i].mem /\ ls[i].off <= 8 * (s - 1) /\ 8 * (s - 1) < ls[i].off + Up(SizeOf(TY(names[i])), 8)} IN
+      memsz == FoldLeft(LAMBDA m, i : IF ls[i].mem THEN Max2(m, ls[i].off + Up(TY(names[i]).size, 8)) ELSE m, 0, [i \in 1..n |-> i])
+      slot(s) == LET hit == {i \in 1..n : ls[i].mem /\ ls[i].off <= 8 * (s - 1) /\ 8 * (s - 1) < ls[i].off + Up(TY(names[i]).size, 8)} IN
                  IF hit = {} THEN <<0, 0>> ELSE LET i == CHOOSE i \in hit : TRUE IN <<i, (8 * (s - 1) - ls[i].off) \div 8 + 1>>
   IN [regs |-> regs, mem |-> [s \in 1..(memsz \div 8) |-> slot(s)]]
 SameRegs(x, y) == {x[i] : i \in DOMAIN x} = {y[i] : i \in DOMAIN y} /\ Len(x) = Len(y)
@@ -560,7 +581,7 @@ Call ==
   /\ phase' = "called"
   /\ dis' = IF \A d0 \in 0..3 : CallOK(args, locs, TY(ret), d0) THEN {} ELSE {"call-stack-discipline"}
   /\ last' = [sim |-> CallSim(args, TY(ret), 1), img |-> AImage(args, locs, TY(ret))]
-  /\ UNCHANGED <<ret, var, args, nfix, locs, a, cl, pp, ce, sp, vw, va, vi, vf, fdis>>
+  /\ UNCHANGED <<ki, ri, ret, var, args, nfix, locs, a, cl, pp, ce, sp, vw, va, vi, vf, fdis>>
 
 Next == (\E k \in ParamKinds : PassNamed(k) \/ PassDots(k)) \/ Call
 Spec == Init /\ [][Next]_vars
@@ -568,7 +589,7 @@ Spec == Init /\ [][Next]_vars
 -----------------------------------------------------------------------------
 (* Invariants *)
 Agree == dis \subseteq Waived /\ fdis \subseteq Waived
-RetAgree == RetDis(TY(ret)) \subseteq Waived
+RetAgree == ri[ret].rdis \subseteq Waived
 (* while the deciders agree, their counters are the psABI's *)
 CountersAgree == dis = {} /\ phase = "named" =>
   /\ Min2(cl.gp, GP_MAX) = a.gp /\ Min2(cl.fp, FP_MAX) = a.sse
@@ -576,8 +597,8 @@ CountersAgree == dis = {} /\ phase = "named" =>
   /\ Min2(ce.gp, GP_MAX) = a.gp /\ Min2(ce.fp, FP_MAX) = a.sse
 TypeOK == a.gp \in 0..GP_MAX /\ a.sse \in 0..FP_MAX /\ pp.gp \in 0..GP_MAX /\ pp.fp \in 0..FP_MAX
 (* Level A sanity: layouts and classes of the alphabet (checked once, against values measured with gcc) *)
-ASSUME SizeOf(TY("Sfic")) = 12 /\ SizeOf(TY("Sc3")) = 3 /\ SizeOf(TY("Udl")) = 16 /\ SizeOf(TY("Se")) = 16
-ASSUME Classify(TY("Sld")) = <<"INTEGER", "SSE">> /\ Classify(TY("Udl")) = <<"INTEGER", "SSE">>
-ASSUME Classify(TY("Se")) = <<"X87", "X87UP">> /\ Classify(TY("Sif")) = <<"INTEGER">>
-ASSUME Classify(TY("Sfff")) = <<"SSE", "SSE">> /\ Classify(TY("S24")) = <<"MEMORY">>
+ASSUME KInfo["Sfic"].size = 12 /\ KInfo["Sc3"].size = 3 /\ KInfo["Udl"].size = 16 /\ KInfo["Se"].size = 16
+ASSUME KInfo["Sld"].cs = <<"INTEGER", "SSE">> /\ KInfo["Udl"].cs = <<"INTEGER", "SSE">>
+ASSUME KInfo["Se"].cs = <<"X87", "X87UP">> /\ KInfo["Sif"].cs = <<"INTEGER">>
+ASSUME KInfo["Sfff"].cs = <<"SSE", "SSE">> /\ KInfo["S24"].cs = <<"MEMORY">>
 =============================================================================
